@@ -72,6 +72,7 @@ type Tunnel struct {
 	SlowStart    time.Duration // the client waits this long before it starts reading
 	ConnectDelay time.Duration // the destination accepts the exit's connection this late
 	NoServer     bool          // nothing listens at the destination: the open must fail (dial refused at the exit)
+	EarlyClose   int           // > 0: the client closes after it has read this many bytes, while the destination is still sending
 	// observations
 	conn       net.Conn
 	OpenErr    error
@@ -510,6 +511,10 @@ func (ts *TunnelSet) Start(t *Tunnel) {
 		}
 		buf := make([]byte, 40000)
 		for t.clientGot < t.Down || t.ClientClose == "closewrite-then-read" {
+			if t.EarlyClose > 0 && t.clientGot >= t.EarlyClose {
+				simrt.Probe("client_closes_while_destination_still_sends")
+				break
+			}
 			rb := buf[:1+simrt.Choose(len(buf), "readsz")]
 			c.SetReadDeadline(time.Now().Add(3 * time.Minute))
 			n, err := c.Read(rb)
